@@ -72,4 +72,136 @@ def entryKind (cls api k : String) : Option String :=
 def entryValue (cls api k : String) (v : Int) : Option MVal :=
   (entryKind cls api k).bind fun k' => mkInt k' v
 
+/-! ## non-integer typed entry points: bool, double (default tolerance / given tolerance), string, `void*`, `const void*`,
+function pointer, memory buffer — through the C++ `withParameter` overloads, the explicit C++ methods and the C interface.
+Followed through the REGENERATED `Gen.MockEquals.cppOverloadsX / cppExplicitX` and C19's `Gen.CMock`. -/
+
+/-- argument(s) of one non-integer entry call -/
+inductive XArg where
+  | bool (b : Bool)                 -- a C++ `bool`
+  | cint (v : Int)                  -- the `int` the C interface takes where C++ takes a `bool`
+  | dbl (v : D Float)               -- `double value`
+  | dbl2 (v t : D Float)            -- `double value, double tolerance` (expectation side only)
+  | str (s : Option Bytes)
+  | ptr (a : Nat)
+  | cptr (a : Nat)
+  | fptr (a : Nat)
+  | mem (b : Bytes)                 -- `const unsigned char* value, size_t size` with `size` = number of bytes
+
+/-- kind of the argument list -/
+def XArg.kind : XArg → String
+  | .bool _ => "bool"
+  | .cint _ => "cint"
+  | .dbl _ => "double"
+  | .dbl2 _ _ => "double2"
+  | .str _ => "string"
+  | .ptr _ => "ptr"
+  | .cptr _ => "cptr"
+  | .fptr _ => "fptr"
+  | .mem _ => "membuf"
+
+/-- the tolerance `setValue(double)` stores (REGENERATED constant) -/
+def defaultTol : D Float := classify Gen.MockEquals.defaultDoubleTolerance
+
+/-- the value the setter call `setter` (text as in the source) stores for the argument(s) `a` -/
+def storeX (setter : String) (a : XArg) : Option MVal :=
+  if setter == "setValue(value)" then
+    match a with
+    | .bool b => some (.bool b)
+    | .dbl v => some (.dbl v defaultTol)
+    | .str s => some (.str s)
+    | .ptr x => some (.ptr x)
+    | .cptr x => some (.cptr x)
+    | .fptr x => some (.fptr x)
+    | _ => none
+  else if setter == "setValue(value,tolerance)" then
+    match a with
+    | .dbl2 v t => some (.dbl v t)
+    | _ => none
+  else if setter == "setMemoryBuffer(value,size)" then
+    match a with
+    | .mem b => some (.mem b)
+    | _ => none
+  else none
+
+def lookup4 (t : List (String × String × String × String)) (a b c : String) : Option String :=
+  (t.find? fun x => x.1 == a && x.2.1 == b && x.2.2.1 == c).map (·.2.2.2)
+
+/-- the setter call of the explicit method `m` of class `cls` taking an argument list of kind `k` -/
+def explicitSetterX (cls m k : String) : Option String := lookup4 Gen.MockEquals.cppExplicitX cls m k
+
+/-- setter reached when `callee` is called on a call object of class `cls` with an argument list of kind `k` -/
+def resolveCppX (cls callee k : String) : Option String :=
+  if callee == "withParameter" then (lookup3 Gen.MockEquals.cppOverloadsX cls k).bind fun m => explicitSetterX cls m k
+  else explicitSetterX cls callee k
+
+def kindWordX (k : String) : Option String :=
+  if k == "bool" then some "Bool" else if k == "double" then some "Double" else if k == "double2" then some "Double"
+  else if k == "string" then some "String" else if k == "ptr" then some "Pointer" else if k == "cptr" then some "ConstPointer"
+  else if k == "fptr" then some "FunctionPointer" else if k == "membuf" then some "MemoryBuffer" else none
+
+/-- name of the C struct member for an argument list of kind `k` (`cint` = the C view of a bool) -/
+def cFieldX (k : String) : Option String :=
+  if k == "cint" then some "withBoolParameters" else if k == "double" then some "withDoubleParameters"
+  else if k == "double2" then some "withDoubleParametersAndTolerance" else if k == "string" then some "withStringParameters"
+  else if k == "ptr" then some "withPointerParameters" else if k == "cptr" then some "withConstPointerParameters"
+  else if k == "fptr" then some "withFunctionPointerParameters" else if k == "membuf" then some "withMemoryBufferParameter"
+  else none
+
+/-- what a C forwarder does with its arguments: the C++ method called and the converted argument list -/
+def cApplyX (body : MockC.Body) (a : XArg) : Option (String × XArg) :=
+  match body, a with
+  | .chain _ _ method [.param "name" "string", .neZero "value"] _, .cint v => some (method, .bool (v != 0))
+  | .chain _ _ method [.param "name" "string", .param "value" "double"] _, .dbl v => some (method, .dbl v)
+  | .chain _ _ method [.param "name" "string", .param "value" "double", .param "tolerance" "double"] _, .dbl2 v t =>
+    some (method, .dbl2 v t)
+  | .chain _ _ method [.param "name" "string", .param "value" "string"] _, .str s => some (method, .str s)
+  | .chain _ _ method [.param "name" "string", .param "value" "ptr"] _, .ptr x => some (method, .ptr x)
+  | .chain _ _ method [.param "name" "string", .param "value" "cptr"] _, .cptr x => some (method, .cptr x)
+  | .chain _ _ method [.param "name" "string", .fnCast "value"] _, .fptr x => some (method, .fptr x)
+  | .chain _ _ method [.param "name" "string", .param "value" "membuf", .param "size" "size"] _, .mem b => some (method, .mem b)
+  | _, _ => none
+
+/-- the forwarder the C struct member for `a` is initialised with -/
+def cForwarderX (cls : String) (a : XArg) : Option MockC.Fwd :=
+  (cFieldX a.kind).bind fun field =>
+    (if cls == "expected" then zipLookup Gen.CMock.expectedFields Gen.CMock.expectedInit field
+     else zipLookup Gen.CMock.actualFields Gen.CMock.actualInit field).bind fun fn =>
+      Gen.CMock.forwarders.find? fun f => f.name == fn
+
+/-- the value created by entry `api` (`ovl`/`exp`/`c`) of class `cls` for the argument list `a`; `none` = no such entry
+    (e.g. a tolerance on the actual side, a C `int` passed to a C++ entry) or the wiring is not of the modelled shape -/
+def entryValueX (cls api : String) (a : XArg) : Option MVal :=
+  if api == "ovl" then (resolveCppX cls "withParameter" a.kind).bind fun s => storeX s a
+  else if api == "exp" then
+    ((kindWordX a.kind).bind fun w => explicitSetterX cls ("with" ++ w ++ "Parameter") a.kind).bind fun s => storeX s a
+  else if api == "c" then
+    ((cForwarderX cls a).bind fun f => cApplyX f.body a).bind fun r => (resolveCppX cls r.1 r.2.kind).bind fun s => storeX s r.2
+  else none
+
+/-- the wiring every non-integer entry point must have -/
+def requiredOverloadsX : List (String × String × String) :=
+  [ ("actual", "bool", "withBoolParameter"), ("actual", "double", "withDoubleParameter"),
+    ("actual", "string", "withStringParameter"), ("actual", "ptr", "withPointerParameter"),
+    ("actual", "cptr", "withConstPointerParameter"), ("actual", "fptr", "withFunctionPointerParameter"),
+    ("actual", "membuf", "withMemoryBufferParameter"),
+    ("expected", "bool", "withBoolParameter"), ("expected", "double", "withDoubleParameter"),
+    ("expected", "string", "withStringParameter"), ("expected", "ptr", "withPointerParameter"),
+    ("expected", "cptr", "withConstPointerParameter"), ("expected", "fptr", "withFunctionPointerParameter"),
+    ("expected", "membuf", "withMemoryBufferParameter"), ("expected", "double2", "withDoubleParameter") ]
+
+/-- … and the one setter call every explicit method must make -/
+def requiredExplicitX : List (String × String × String × String) :=
+  [ ("actual", "withBoolParameter", "bool", "setValue(value)"), ("actual", "withDoubleParameter", "double", "setValue(value)"),
+    ("actual", "withStringParameter", "string", "setValue(value)"), ("actual", "withPointerParameter", "ptr", "setValue(value)"),
+    ("actual", "withConstPointerParameter", "cptr", "setValue(value)"),
+    ("actual", "withFunctionPointerParameter", "fptr", "setValue(value)"),
+    ("actual", "withMemoryBufferParameter", "membuf", "setMemoryBuffer(value,size)"),
+    ("expected", "withBoolParameter", "bool", "setValue(value)"), ("expected", "withDoubleParameter", "double", "setValue(value)"),
+    ("expected", "withDoubleParameter", "double2", "setValue(value,tolerance)"),
+    ("expected", "withStringParameter", "string", "setValue(value)"), ("expected", "withPointerParameter", "ptr", "setValue(value)"),
+    ("expected", "withConstPointerParameter", "cptr", "setValue(value)"),
+    ("expected", "withFunctionPointerParameter", "fptr", "setValue(value)"),
+    ("expected", "withMemoryBufferParameter", "membuf", "setMemoryBuffer(value,size)") ]
+
 end Mock
